@@ -4,7 +4,8 @@
 //     entry = mm | smm | mms | smms          multiway_merge, stable_…, …_sentinels, stable_…_sentinels
 //           | b00 | b10 | b01 | b11          multiway_merge_base<Stable, Sentinels>
 //     algo  = lt | ltc | lts | bub | def     MWMA_LOSER_TREE, _COMBINED, _SENTINEL, MWMA_BUBBLE, default argument
-//     elem  = e8 | e40                       8-byte elements (copy loser trees) / 40-byte (pointer loser trees)
+//     elem  = e8 | e40 | d8 | d40            8-byte elements (copy loser trees) / 40-byte (pointer loser trees);
+//                                            d*: sequences and target are std::deque (non-contiguous iterators)
 //     cmp   = lt | gt | q4                   key order a<b, a>b, a/4<b/4
 //     len   = number of elements to merge (0..total)
 //     sentinel: key of the element stored behind every sequence for the *_sentinels entry points
@@ -25,6 +26,7 @@
 #include <algorithm>
 #include <cassert>
 #include <cstdint>
+#include <deque>
 #include <functional>
 #include <memory>
 #include <utility>
@@ -42,10 +44,11 @@
 struct E8 {
     int32_t key; uint32_t tag;
     E8() : key(0), tag(0) {}
-    E8(long long k, unsigned s, unsigned p) : key(static_cast<int32_t>(k)), tag((s << 16) | p) {}
+    // 18 bits sequence number (huge-k cases: up to 2^18 sequences), 14 bits position
+    E8(long long k, unsigned s, unsigned p) : key(static_cast<int32_t>(k)), tag((s << 14) | (p & 0x3fff)) {}
     long long k() const { return key; }
-    unsigned seq() const { return tag >> 16; }
-    unsigned pos() const { return tag & 0xffff; }
+    unsigned seq() const { return tag >> 14; }
+    unsigned pos() const { return tag & 0x3fff; }
 };
 struct E40 {
     long long key; uint32_t s, p; char pad[24];
@@ -75,7 +78,13 @@ static std::string show(const E& e) {
     return std::to_string(e.k()) + ":" + std::to_string(e.seq()) + ":" + std::to_string(e.pos());
 }
 
-template <typename E>
+template <typename C> static void tighten(C&, size_t) {}
+template <typename E> static void tighten(std::vector<E>& v, size_t) { v.shrink_to_fit(); }
+template <typename C> static void prealloc(C&, size_t) {}
+template <typename E> static void prealloc(std::vector<E>& v, size_t n) { v.reserve(n); }
+
+// Cont = std::vector<E> (contiguous, exactly sized) or std::deque<E> (random access, not contiguous)
+template <typename E, typename Cont>
 static void run_merge(const std::vector<std::string>& t) {
     // t: merge entry algo elem cmp len sentinel seqs...
     const std::string& entry = t[1];
@@ -99,12 +108,12 @@ static void run_merge(const std::vector<std::string>& t) {
     else if (algo == "def") mw = -1; else { vh::answer("bad-op"); return; }
 
     size_t k = t.size() - 7;
-    if (k > 60000) { vh::answer("bad-op"); return; }
+    if (k > 200000) { vh::answer("bad-op"); return; }
     std::vector<std::vector<long long> > keys;
     long long total = 0;
     for (size_t i = 0; i < k; ++i) {
         keys.push_back(vh::csv(t[7 + i]));
-        if (keys.back().size() > 60000) { vh::answer("bad-op"); return; }
+        if (keys.back().size() > 16000) { vh::answer("bad-op"); return; }
         total += static_cast<long long>(keys.back().size());
     }
     if (len < 0 || len > total) { vh::answer("bad-op"); return; }
@@ -112,29 +121,29 @@ static void run_merge(const std::vector<std::string>& t) {
     long long sen = has_sen ? std::stoll(t[6]) : 0;
     if (sentinels && !has_sen) { vh::answer("bad-op"); return; }
     // build the sequences; heap arrays of exactly the needed size
-    std::vector<std::unique_ptr<std::vector<E> > > store;
+    std::vector<std::unique_ptr<Cont> > store;
     for (size_t i = 0; i < k; ++i) {
-        std::unique_ptr<std::vector<E> > v(new std::vector<E>());
-        v->reserve(keys[i].size() + (sentinels ? 1 : 0));
+        std::unique_ptr<Cont> v(new Cont());
+        prealloc(*v, keys[i].size() + (sentinels ? 1 : 0));
         for (size_t p = 0; p < keys[i].size(); ++p) v->push_back(E(keys[i][p], static_cast<unsigned>(i), static_cast<unsigned>(p)));
         for (size_t p = 1; p < v->size(); ++p)
             if (cmp((*v)[p], (*v)[p - 1])) { vh::answer("bad-op"); return; }
         if (sentinels) {
-            E s(sen, 0xffff, 0xffff);
+            E s(sen, 0x3ffff, 0x3fff);
             for (size_t p = 0; p < v->size(); ++p)
                 if (!cmp((*v)[p], s)) { vh::answer("bad-op"); return; }   // sentinel must be greater than all real ones
             v->push_back(s);
         }
-        v->shrink_to_fit();
+        tighten(*v, 0);
         store.push_back(std::move(v));
     }
-    using It = typename std::vector<E>::iterator;
+    using It = typename Cont::iterator;
     std::vector<std::pair<It, It> > seqs;
     for (size_t i = 0; i < k; ++i)
         seqs.push_back(std::make_pair(store[i]->begin(), store[i]->begin() + static_cast<long>(keys[i].size())));
     std::vector<std::pair<It, It> > orig = seqs;
-    std::vector<E> out(static_cast<size_t>(len));
-    out.shrink_to_fit();
+    Cont out(static_cast<size_t>(len));
+    tighten(out, 0);
     It target = out.begin();
     It ret;
     tlx::MultiwayMergeAlgorithm a = mw < 0 ? tlx::MWMA_ALGORITHM_DEFAULT : static_cast<tlx::MultiwayMergeAlgorithm>(mw);
@@ -234,8 +243,10 @@ int main(int argc, char** argv) {
                 in_op = 1;
                 arm_watchdog(2);
                 try {
-                    if (t[3] == "e8") run_merge<E8>(t);
-                    else if (t[3] == "e40") run_merge<E40>(t);
+                    if (t[3] == "e8") run_merge<E8, std::vector<E8> >(t);
+                    else if (t[3] == "e40") run_merge<E40, std::vector<E40> >(t);
+                    else if (t[3] == "d8") run_merge<E8, std::deque<E8> >(t);
+                    else if (t[3] == "d40") run_merge<E40, std::deque<E40> >(t);
                     else vh::answer("bad-op");
                 } catch (const std::exception&) { vh::answer("bad-op"); }
                 in_op = 0;
